@@ -824,6 +824,16 @@ func probeQueries() []query {
 			}
 		}
 	}
+	// a valid document whose normalised form does not validate, and invalid /
+	// valid documents of the same shape that differ from it in one literal
+	for i, t := range []string{
+		`{ x: s(a: "v") ...F } fragment F on Q { x: s(a: "v") }`,
+		`{ x: s(a: "OTHER") ...F } fragment F on Q { x: s(a: "v") }`,
+		`{ x: s(a: "v") ...F } fragment F on Q { x: s(a: "w") }`,
+		`{ x: s(a: "q") ...F } fragment F on Q { x: s(a: "q") }`,
+	} {
+		out = append(out, query{text: t, note: fmt.Sprintf("probe-literal-in-fragment-twin-%d", i), group: "literal-in-fragment-twins"})
+	}
 	for _, n := range names {
 		q := query{text: texts[n], note: "probe-" + n}
 		if n == "literal-vs-variable" {
